@@ -11,6 +11,10 @@ mod messages;
 mod platform;
 mod server;
 mod source;
+#[cfg(pendulum_project_ntpd_rs_verif)]
+#[allow(missing_docs)]
+#[path = "/verif/hooks/statime_csptp/mod.rs"]
+pub mod verif;
 
 pub use manager::{CsptpConfig, CsptpManager};
 pub use platform::{InternalState, StateMutex};
